@@ -205,6 +205,9 @@ def gen_request(rng, k, node, nid, fault_rate, kinds):
           {"X-A": "2", "Accept": "*/*"}]
     if not node.auth:
         hs.append({"Authorization": "Custom abc"})
+    else:
+        # another spelling of the name: the authenticating layer's header is the one that goes out
+        hs.append({rng.choice(["authorization", "AUTHORIZATION"]): "Custom low"})
     op["headers"] = rng.choice(hs)
     op["raw"] = rng.random() < 0.1
     net = {"lat": rng.choice([0, 0, 1, 2, 4])}
